@@ -46,8 +46,15 @@ def re_events(r, src):
 def dfa_events(src):
     from gambatools.regexp_algorithms import dfa_to_regexp
     D = gen.build_dfa(src)
-    if D.Q & {"start", "accept"}:
-        return
+    if src.get("clash"):
+        # states named like the two states state elimination adds
+        Q = sorted(D.Q)
+        m = {Q[0]: "start"}
+        if len(Q) > 1 and src["clash"] > 1:
+            m[Q[-1]] = "accept"
+        if src["clash"] == 3:
+            m = {Q[-1]: "accept"}
+        D = U.rename_fa(D, {q: m.get(q, q) for q in D.Q})
     from gambatools import _verif
     pre = ab.dfa(D)
     _verif.take()
@@ -73,11 +80,12 @@ def rip_trace(D, pre, src):
         _verif.take()
         gnfa_minimize(G)
         rips = [ab.enc(t["q"]) for t in _verif.take() if t["ev"] == "rip"]
-        return labels, rips, ab.regexp(G.delta[G.q_start, G.q_accept])
+        return labels, rips, ab.regexp(G.delta[G.q_start, G.q_accept]), ab.enc(G.q_start), ab.enc(G.q_accept)
     out, exc = guarded(run, 30)
     if exc != "none":
         return
-    yield {"op": "rip_trace", "fa": pre, "gnfa": out[0], "rips": out[1], "res": out[2], "src": src}
+    yield {"op": "rip_trace", "fa": pre, "gnfa": out[0], "rips": out[1], "res": out[2], "qs": out[3], "qa": out[4],
+           "src": src}
 
 
 def thompson_line(line):
@@ -141,7 +149,9 @@ def drive(task):
             r = U.random_regexp(rng, rng.choice([2, 3, 4, 5, 6, 8]), rng.choice(["ab", "abc", "a", "01"]))
             yield from re_events(r, {"kind": "re"})
     else:
-        for src in gen.dfa_srcs(task):
+        for i, src in enumerate(gen.dfa_srcs(task)):
+            if i % 7 == 6:
+                src = dict(src, clash=1 + (i // 7) % 3)
             yield from dfa_events(src)
 
 
@@ -216,8 +226,7 @@ def check(tier, seed):
         res.notes["model_behaviours_replayed_into_impl"] = info
 
     return base.standard_check(PID, tier, seed, ts, MODELS[tier], RULE, nontrivial, extra=extra,
-                               assumptions=["DFA state names other than 'start'/'accept' (the code asserts this)",
-                                            "single-character symbols"])
+                               assumptions=[                                            "single-character symbols"])
 
 
 def replay(path, seed):
